@@ -109,3 +109,9 @@ def after(case, q, ex, rec):
 
 def run_cases(cases, rec, tier='quick', seed='0'):
     common.run_encode_cases(cases, rec, {'C06'}, after=after)
+
+
+def main_phase(tier, seed, rec):
+    """Thorough tier: the repository's own test-suite as one more workload under the same monitor."""
+    if tier == 'thorough':
+        common.suite_under_monitors({'C06'}, rec)
